@@ -14,6 +14,9 @@ RULE = ('all 18 single symbols, every string up to length 2 (quick) / 4 (thoroug
         '(any byte 0..255), 1-9 operations out of complement/reverse/rc/rc(update_fts)/copy (three kinds)/basket complement/reverse/rc/'
         '.str.translate/.str.replace/.str.lower/data=/+=/alias (same object listed twice)/append, every state (all objects + basket handles) compared; '
         'all 256 byte values in one string; exhaustive strings over ATUGR up to length 3 complemented twice; '
+        'the module-level statements of seq.py that build the tables re-executed on ~90 other CODES tables (synonyms, removed / reordered / '
+        'rewritten entries, unknown bases, the empty code, small random tables) against run_C05_derive, compared by base sets / KeyError '
+        '(skipped when the statements cannot be re-executed in isolation); '
         'non-trivial = distinct (op, string) containing an ambiguity code, a gap or U, or a distinct history')
 TRUSTED = ['CPython str.translate/str.replace/slicing (modelled as per-character maps, compared on every case)',
            'modelled: BioSeq.complement/reverse/rc/gc, BioBasket.rc/complement (seq.py:336-355,486-494,584-589,766-772,876-902)']
@@ -85,6 +88,7 @@ def gen_cases(rng, tier):
         cases.append({'op': rng.choice(['complement', 'rc', 'rev_complement', 'rc_rc', 'reverse']), 's': s, 'basket': bool(others),
                       'pre': pre, 'others': others, 'ufts': rng.random() < 0.3})
     cases += gen_hist(rng, tier)
+    cases += gen_derive(rng, tier)
     return cases
 
 
@@ -154,6 +158,8 @@ def cur(case):
 def impl(case):
     if case.get('kind') == 'hist':
         return impl_hist(case)
+    if case.get('kind') == 'derive':
+        return impl_derive(case)
     from sugar import BioSeq, BioBasket
     s, op = case['s'], case['op']
     del _SOURCES[:]
@@ -215,12 +221,18 @@ def classify(s):
 
 
 def split_model(case, m):
+    if case.get('kind') == 'derive':
+        return True, m
     if case.get('kind') == 'hist':
         return bool(m[0]), m[1]
     return True, m
 
 
 def valid_case(case):
+    if case.get('kind') == 'derive':
+        ks = [kv[0] for kv in case['codes']]
+        return (len(set(ks)) == len(ks) and all(isinstance(kv, list) and len(kv) == 2 and len(kv[0]) == 1 for kv in case['codes'])
+                and all(isinstance(kv, list) and len(kv) == 2 and len(kv[0]) == 1 and len(kv[1]) == 1 for kv in case['compl']))
     if case.get('kind') != 'hist':
         return True
     ini, ops = case.get('init'), case.get('ops')
@@ -452,7 +464,154 @@ def gen_hist(rng, tier):
 
 
 
+# ----------------------------------------------------------------------------- the table derivation on other CODES tables
+DERIVED_NAMES = ('CODES_INV', 'COMPLEMENT', 'COMPLEMENT_ALL', 'COMPLEMENT_TRANS')
+
+
+def coq_byte(c):
+    return '%s' % ('x%02x' % ord(c))
+
+
+def _derivation_statements():
+    """the module-level assignments of sugar/core/seq.py that build the complement tables, in source order"""
+    import ast, inspect
+    import sugar.core.seq as S
+    tree = ast.parse(inspect.getsource(S))
+    stmts = []
+    for node in tree.body:
+        if isinstance(node, (ast.Assign, ast.AnnAssign, ast.AugAssign)):
+            targets = node.targets if isinstance(node, ast.Assign) else [node.target]
+            names = {n.id for t in targets for n in ast.walk(t) if isinstance(n, ast.Name)}
+            if names & set(DERIVED_NAMES):
+                stmts.append(compile(ast.Module(body=[node], type_ignores=[]), S.__file__, 'exec'))
+    return S, stmts
+
+
+def _derive_with(codes):
+    S, stmts = _derivation_statements()
+    ns = dict(S.__dict__)
+    ns['CODES'] = dict(codes)
+    for c in stmts:
+        exec(c, ns)
+    return ns
+
+
+_DERIVE_APPLICABLE = []
+
+
+def derive_applicable():
+    """the statements, re-executed, reproduce the module's tables and do react to another CODES (else the stream says nothing)"""
+    if not _DERIVE_APPLICABLE:
+        ok = False
+        try:
+            import sugar.data as D
+            S, stmts = _derivation_statements()
+            ns = _derive_with(D.CODES)
+            ns2 = _derive_with(dict(D.CODES, **{'\xd8': 'TA'}))
+            ok = (bool(stmts) and ns['COMPLEMENT_ALL'] == S.COMPLEMENT_ALL and ns['COMPLEMENT_TRANS'] == S.COMPLEMENT_TRANS
+                  and '\xd8' in ns2['COMPLEMENT_ALL'])
+        except Exception:
+            ok = False
+        _DERIVE_APPLICABLE.append(ok)
+    return _DERIVE_APPLICABLE[0]
+
+
+def impl_derive(case):
+    if not derive_applicable():
+        return {'skip': True}
+    ns = _derive_with([tuple(kv) for kv in case['codes']])       # KeyError propagates
+    ca = ns['COMPLEMENT_ALL']
+    tr = ns['COMPLEMENT_TRANS']
+    assert all((tr.get(ord(k), k) if not isinstance(tr.get(ord(k), k), int) else chr(tr[ord(k)])) == v for k, v in ca.items()), 'COMPLEMENT_TRANS is not COMPLEMENT_ALL'
+    assert all(chr(k) in ca for k in tr), 'COMPLEMENT_TRANS has other keys than COMPLEMENT_ALL'
+    return [[k, v] for k, v in ca.items()]
+
+
+def _derive_sets(case, pairs):
+    codes = dict(tuple(kv) for kv in case['codes'])
+    return {k: frozenset(codes[v]) if v in codes else ('?', v) for k, v in pairs}
+
+
+def agree(case, implval, modelval):
+    if case.get('kind') == 'derive':
+        if isinstance(implval, dict) and implval.get('skip'):
+            return True
+        if isinstance(implval, dict) or isinstance(modelval, dict):
+            return implval == modelval
+        # the property is about base sets: synonymous codes are as good as each other; the order of a lookup table is immaterial
+        return _derive_sets(case, implval) == _derive_sets(case, modelval)
+    return implval == modelval
+
+
+def spec_derive(case, got):
+    if isinstance(got, dict) and got.get('skip'):
+        return None
+    codes = dict(tuple(kv) for kv in case['codes'])
+    compl = dict(tuple(kv) for kv in case['compl'])
+    sets = {frozenset(v) for v in codes.values()}
+    must_fail = any(any(nt not in compl for nt in nts) or frozenset(compl[nt] for nt in nts) not in sets for nts in codes.values())
+    if isinstance(got, dict):
+        return None if (must_fail and got.get('e') == 'KeyError') else 'raised %s' % got.get('e')
+    if must_fail:
+        return 'a complement is not expressible in the table, yet no KeyError'
+    d = dict(tuple(kv) for kv in got)
+    if set(d) != set(codes):
+        return 'keys differ from CODES'
+    for c, nts in codes.items():
+        if d[c] not in codes or frozenset(codes[d[c]]) != frozenset(compl[nt] for nt in nts):
+            return 'complement of %r is %r' % (c, d[c])
+    return None
+
+
+def gen_derive(rng, tier):
+    import sugar.data as D
+    import sugar.core.seq as S
+    real = [[k, v] for k, v in D.CODES.items()]
+    compl = [[k, v] for k, v in S.COMPLEMENT.items()]
+    if not all(isinstance(k, str) and isinstance(v, str) and len(k) == 1 and ord(k) < 256 and all(ord(c) < 256 for c in v) for k, v in real):
+        return []
+    if not all(isinstance(k, str) and isinstance(v, str) and len(k) == 1 and len(v) == 1 and ord(k) < 256 and ord(v) < 256 for k, v in compl):
+        return []
+    out = [{'kind': 'derive', 'codes': real, 'compl': compl}]
+    spare = [c for c in 'XZIJOQ*' if c not in dict(map(tuple, real))]
+    for _ in range(400 if tier == 'thorough' else 60):
+        t = [list(kv) for kv in real]
+        for _ in range(rng.choice([1, 1, 2, 3])):
+            r = rng.random()
+            i = rng.randrange(len(t))
+            free = [c for c in spare if c not in [kv[0] for kv in t]]
+            if r < 0.2 and free:           # a synonym (same base set, maybe written in another order / with repeats)
+                v = list(t[i][1]) + ([rng.choice(t[i][1])] if t[i][1] and rng.random() < 0.3 else [])
+                rng.shuffle(v)
+                t.insert(rng.randrange(len(t) + 1), [free[0], ''.join(v)])
+            elif r < 0.4:                  # an entry removed: its partner's complement is not expressible any more
+                del t[i]
+            elif r < 0.55:                 # bases written in another order
+                v = list(t[i][1]); rng.shuffle(v); t[i][1] = ''.join(v)
+            elif r < 0.65 and free:        # a code over a base that COMPLEMENT does not know
+                t.append([free[0], rng.choice(['AI', 'I', 'X-'])])
+            elif r < 0.75 and free:        # the empty code
+                t.append([free[0], ''])
+            elif r < 0.9:                  # entries in another order
+                rng.shuffle(t)
+            else:                          # another base set for an existing code
+                t[i][1] = ''.join(rng.sample('ACGT', rng.randrange(1, 4)))
+        if t:
+            out.append({'kind': 'derive', 'codes': t, 'compl': compl})
+    for _ in range(200 if tier == 'thorough' else 30):    # small tables from scratch
+        bases = 'ACGT.-'
+        ks = rng.sample('ACGTRYSWKMBDHVN.-XZ', rng.randrange(1, 8))
+        t = [[k, ''.join(rng.sample(bases, rng.randrange(1, 4)))] for k in ks]
+        out.append({'kind': 'derive', 'codes': t, 'compl': compl})
+    return out
+
+
+
 def model_term(case):
+    if case.get('kind') == 'derive':
+        return 'out (run_C05_derive %s %s)' % (
+            coq_list([coq_pair(coq_byte(k), coq_bs(v)) for k, v in case['codes']]),
+            coq_list([coq_pair(coq_byte(k), coq_byte(v)) for k, v in case['compl']]))
     if case.get('kind') == 'hist':
         return 'out (run_C05_hist %s %s)' % (
             coq_list([coq_pair(coq_bool(bool(m[0])), coq_bs(m[1])) for m in case['init']]),
@@ -465,6 +624,8 @@ def spec(case, got):
     """Property-level oracle, independent of the Coq model."""
     if case.get('kind') == 'hist':
         return spec_hist(case, got)
+    if case.get('kind') == 'derive':
+        return spec_derive(case, got)
     s, op = cur(case), case['op']
     if isinstance(got, dict):
         return 'raised %s' % got['e']
@@ -482,6 +643,8 @@ def spec(case, got):
 
 
 def nontrivial(case, got):
+    if case.get('kind') == 'derive':
+        return 'derive:' + repr(case['codes'])
     if case.get('kind') == 'hist':
         return 'hist:' + ','.join(str(o[0]) for o in case['ops']) + ':' + ''.join(sorted(set(''.join(m[1] for m in case['init']))))[:24]
     s = cur(case)
@@ -493,6 +656,8 @@ def nontrivial(case, got):
 
 
 def histkey(case, got):
+    if case.get('kind') == 'derive':
+        return ['derive', 'derive-' + ('skipped' if isinstance(got, dict) and got.get('skip') else 'KeyError' if isinstance(got, dict) else 'ok')]
     if case.get('kind') == 'hist':
         return ['hist', 'hist-seqs=%d' % len(case['init'])] + ['hop=' + OPNAMES[o[0]] for o in case['ops']] + sorted(set(classify(m[1]) for m in case['init']))
     n = len(case['s'])
@@ -503,6 +668,8 @@ def histkey(case, got):
 
 
 def python_snippet(case):
+    if case.get('kind') == 'derive':
+        return snippet_hist(case).replace('impl_hist', 'impl_derive').replace('spec_hist', 'spec_derive')
     if case.get('kind') == 'hist':
         return snippet_hist(case)
     return "from sugar import BioSeq; s=BioSeq(%r); print(s.%s)" % (case['s'], {'complement': 'complement()', 'rc': 'rc()', 'rev_complement': 'complement().reverse()', 'rc_rc': 'rc().rc()', 'gc': 'gc', 'reverse': 'reverse()'}[case['op']])
@@ -514,7 +681,8 @@ LEVEL_TEXT = ('Machine-checked Coq theorems for EVERY byte string (not only the 
               'complement/rc applied twice: exact result and exact region of the involution (C05_twice, C05_involution_iff: iff no U, or U with an A '
               'and no T), RNA = DNA conjugated by T<->U (C05_rna_up_to_U, C05_rna_square, C05_tu_bijection, C05_t2u_square_iff), mixed T/U strings '
               '(C05_mixed_TU), constructor upper-casing (C05_constructor); the derivation of COMPLEMENT_ALL/COMPLEMENT_TRANS from CODES is a Gallina '
-              'function proved to yield the regenerated tables (C05_derived_tables, C05_codes_are_iupac; re-checked against /repo on every run). '
+              'function proved to yield the regenerated tables (C05_derived_tables, C05_codes_are_iupac; re-checked against /repo on every run) and '
+              'proved sound for ANY code table (C05_derivation_sound: the derived complement denotes the image of the bases, keys as in CODES). '
               'Objects and baskets as a heap of cells with handles: the basket loop reaches an object once per listing (C05_basket_loop), equals '
               'the per-sequence map when every object is listed once (C05_basket_nodup, C05_basket_is_map), copy() isolates (C05_copy_isolation), '
               'every history of complement/reverse/rc keeps all lengths and GC counts (C05_history_invariants) and acts on an object through two '
@@ -524,7 +692,7 @@ LEVEL_TEXT = ('Machine-checked Coq theorems for EVERY byte string (not only the 
 LEVEL_NOTE = ('Trusted: Coq kernel/vm_compute, tools/gen_data.py (tables), the correspondence harness, CPython str.translate/replace/upper/lower. '
               'Modelled rather than verified: BioSeq.__init__ (upper-casing), complement/reverse/rc/gc, .str.translate/.replace/.lower, copy, '
               'BioBasket.complement/reverse/rc/.str.translate over a heap of objects with handles (run_C05_hist); Python str limited to Latin-1, '
-              'constructor input without 0xB5/0xFF (upper case leaves Latin-1). Object identity (the receiver is returned) is tested only. Line 227 of BioSeq.__init__ (metadata from a mapping) is not reached: it does not touch residues. '
+              'constructor input without 0xB5/0xFF (upper case leaves Latin-1). Object identity (the receiver is returned) is tested only. That complement leaves bytes outside the 17 symbols and U alone (lower case included) is a statement about the present code: the property text is silent there, an extension of the table to lower case would be reported. Line 227 of BioSeq.__init__ (metadata from a mapping) is not reached: it does not touch residues. '
               'All theorems closed under the global context (no axioms).')
 
 MODELLED_FUNCS = {'sugar/core/seq.py': ['BioSeq.__init__', '_BioSeqStr.translate', '_BioSeqStr.replace', '_BioSeqStr.lower', 'BioSeq.__iadd__', 'BioSeq.copy', 'BioSeq.complement', 'BioSeq.reverse', 'BioSeq.rc', 'BioSeq.gc', 'BioBasket.rc', 'BioBasket.complement', 'BioBasket.reverse']}
